@@ -132,6 +132,8 @@ def gen(seed, index):
             p = [t, n]
         else:
             p = [t]
+        if rng.random() < 0.3 and t not in ("same",):
+            which = "parsemut" + which[-2:]
         return [which, p, n]
     return ["seconds", rng.randint(20, 480), rng.choice([1, 2, 3]), rng.choice([1, 2, 3]), rng.choice([1, 2])]
 
@@ -144,6 +146,8 @@ def model_case(case):
         return case[:4]
     if k in ("parse_d", "parse_t"):
         return case[:2]
+    if k in ("parsemut_d", "parsemut_t"):
+        return ["parse" + k[-2:], case[1]]
     if k == "seconds":
         return ["cmp", ["D", 0], ["q", 0, 1]]
     return case
@@ -151,7 +155,7 @@ def model_case(case):
 
 def is_f5(case):
     """a malformed point list (also as a string literal) handed to the tempo parser"""
-    return case[0] == "parse_t" and case[1][0] == "str-junk" and int(case[1][1]) % 10 == 7
+    return case[0] in ("parse_t", "parsemut_t") and case[1][0] == "str-junk" and int(case[1][1]) % 10 == 7
 
 
 def compare(case, mo, io):
@@ -220,10 +224,12 @@ def oracle(case, io, mo):
         if [int(v) for v in vals] != exp:
             return f"reported beat counts {vals} after the updates, the latest values are {exp}"
         return None
-    if k in ("parse_d", "parse_t"):
+    if k in ("parse_d", "parse_t", "parsemut_d", "parsemut_t"):
         p = case[1]
         t = p[0]
-        tempo = k == "parse_t"
+        tempo = k.endswith("_t")
+        if not is_err(io) and io[1] == "second-parse-returns-the-first-result-object":
+            return "parsing the same input twice returns one shared object: an in-place update of the first result changes what the second parse reports"
         bad = t in ("str-junk", "other") or (t == "str-frac" and int(p[2]) == 0) or (not tempo and t in ("points", "str-list"))
         if bad:
             if is_f5(case) and is_err(io) and io[1] == "TypeError":
@@ -270,7 +276,7 @@ def nontrivial(case, io):
     if k == "durhist":
         us = [u[0] for u in case[3:]]
         return any(us[i] == "read" and any(x != "read" for x in us[i + 1:]) and "read" in us[i + 1:] for i in range(len(us)))
-    return k in ("parse_d", "parse_t")
+    return k in ("parse_d", "parse_t", "parsemut_d", "parsemut_t")
 
 
 def stats(results):
@@ -280,7 +286,7 @@ def stats(results):
         case = r["case"]
         k = case[0]
         c[k] += 1
-        if k in ("parse_d", "parse_t"):
+        if k in ("parse_d", "parse_t", "parsemut_d", "parsemut_t"):
             c["parse:" + case[1][0]] += 1
         if k == "arith":
             c["arith:" + case[1]] += 1
